@@ -668,7 +668,7 @@ var stubSets = map[string]map[string]externalFn{
 			b := args[1].([]value)
 			schedYield(fr)
 			if e.p.rclosed {
-				return tuple{0, fr.i.mkError("write |1: broken pipe")}
+				return tuple{0, epipeError(fr)}
 			}
 			e.p.buf = append(e.p.buf, b...)
 			return tuple{len(b), iface{}}
@@ -697,7 +697,7 @@ var stubSets = map[string]map[string]externalFn{
 			}
 			schedYield(fr)
 			if e.p.rclosed {
-				return tuple{0, fr.i.mkError("write |1: broken pipe")}
+				return tuple{0, epipeError(fr)}
 			}
 			e.p.buf = append(e.p.buf, b...)
 			return tuple{len(b), iface{}}
@@ -853,4 +853,18 @@ func sprintfSymbolic(fr *frame, f string, as []value) (value, bool) {
 		return nil, false
 	}
 	return mkStr(out), true
+}
+
+// epipeError builds &fs.PathError{Op: "write", Path: "|1", Err: syscall.EPIPE},
+// what (*os.File).Write returns for a pipe whose reader is gone.
+func epipeError(fr *frame) value {
+	fp := fr.i.prog.ImportedPackage("io/fs")
+	sp := fr.i.prog.ImportedPackage("syscall")
+	if fp == nil || sp == nil {
+		return fr.i.mkError("write |1: broken pipe")
+	}
+	pt := fp.Type("PathError").Object().Type()
+	et := sp.Type("Errno").Object().Type()
+	var cell value = structure{"write", "|1", iface{t: et, v: uintptr(0x20)}}
+	return iface{t: types.NewPointer(pt), v: &cell}
 }
